@@ -16,4 +16,7 @@ for f in repo.all_functions():
         h, order = describe(f.node)
         out[f.qual] = {"hash": h, "locals": order, "sigs": local_sigs(f.node)}
 REF_FILE.write_text(json.dumps(out, indent=0, sort_keys=True))
-print(len(out), "functions")
+import subprocess
+head = subprocess.run(["git", "-C", "/repo", "rev-parse", "HEAD"], capture_output=True, text=True).stdout.strip()
+(REF_FILE.parent / "reference_head.txt").write_text(head + "\n")
+print(len(out), "functions; reference tree", head[:10])
